@@ -336,6 +336,9 @@ def _post_sigma(fromvglvls, tovglvls, result):
 _installed = False
 
 
+_PRISTINE_ETAI = {}
+
+
 def install():
     global _installed
     if _installed:
@@ -345,6 +348,14 @@ def install():
         _post_weights, error=LawBroken)(cu.getinterpweights)
     cu.sigma2coeff = icontract.ensure(
         _post_sigma, error=LawBroken)(cu.sigma2coeff)
+    # the model's pressure edges as they are at import time, before any
+    # interpolation has run in this process
+    try:
+        from PseudoNetCDF.geoschemfiles import _vertcoord
+        for k_, v_ in _vertcoord.geos_etai_pressure.items():
+            _PRISTINE_ETAI[k_] = np.array(v_, dtype='f8', copy=True)
+    except Exception:
+        pass
     _installed = True
 
 
@@ -386,6 +397,20 @@ def run_bpchsigma(spec, res):
             return [], False
         g = f.copy()
         etai = np.asarray(g.variables['etai_pressure'][:], 'f8') * 100.
+        vg = getattr(f, 'vertgrid', 'GEOS-5-REDUCED')
+        if vg in _PRISTINE_ETAI:
+            # the reference is the table as imported, not what earlier calls
+            # in this process may have left behind
+            ref = _PRISTINE_ETAI[vg][:etai.size] * 100.
+            if ref.shape != etai.shape or not np.allclose(ref, etai,
+                                                          rtol=1e-6):
+                problems.append(
+                    'the pressure edges of a freshly opened file start at '
+                    '%r hPa, the %s table as imported says %r (state left '
+                    'behind by an earlier call in this process)'
+                    % (etai[0] / 100., vg, ref[0] / 100.))
+                return problems, True
+            etai = ref
         vgtop = {'model': float(etai[-1]), 'zero': 0.0,
                  'above': float(etai[-1]) + 500.}[spec['top']]
         sig = (etai - vgtop) / (etai[0] - vgtop)
@@ -434,6 +459,12 @@ def run_bpchsigma(spec, res):
         except Exception as e:
             return ['bpch interpSigma(%d target layers, top=%s) raised %r'
                     % (nzs.size, spec['top'], e)], True
+        e_after = np.asarray(g.variables['etai_pressure'][:], 'f8') * 100.
+        if e_after.shape != etai.shape or not np.allclose(e_after, etai,
+                                                          rtol=1e-6):
+            problems.append('interpSigma changed the pressure edges of its '
+                            'input: first edge %r -> %r hPa'
+                            % (etai[0] / 100., e_after[0] / 100.))
         for k, ldim, ax, n, prof in judged:
             ov = np.asarray(out.variables[k][...], 'f8')
             if ov.shape[ax] != nzs.size or \
